@@ -24,7 +24,7 @@ LEVEL = "exploration"
 RULE = ("scenario = NDJSON byte stream of 1..12 lines (valid messages and junk of each class) x cut positions (seeded, 1-byte, "
         "targeted inside UTF-8 sequences / CRLF / after LF, plus a systematic sweep of every single cut of fixed base streams) x burst timing; "
         "non-trivial = at least one cut fell strictly inside a line, or a junk line preceded a valid one")
-PROBES = ["legacy_request_stream_registered", "legacy_request_stream_abandoned", "burst_over_100_lines_in_one_read", "cut_inside_utf8_sequence", "cut_inside_crlf", "cut_right_after_lf", "junk_before_valid", "one_byte_chunks",
+PROBES = ["child_exited_with_unread_output", "earlier_session_ended_mid_line", "legacy_request_stream_registered", "legacy_request_stream_abandoned", "burst_over_100_lines_in_one_read", "cut_inside_utf8_sequence", "cut_inside_crlf", "cut_right_after_lf", "junk_before_valid", "one_byte_chunks",
           "line_separator_chars_in_payload"]
 PROBES_THOROUGH = ["read_capped_at_max_bytes"]
 TIERS = {"quick": {"runs": 15000, "wall": 45.0}, "thorough": {"runs": 1000000, "wall": 560.0}}
@@ -171,7 +171,12 @@ def generate(rng: random.Random, tier: str) -> dict:
         for i, ln in enumerate(lines):
             if ln["kind"] in ("response", "error") and rng.random() < 0.6:
                 legacy.append({"line": i, "close": rng.random() < 0.5})
-    return {"v": 1, "legacy_streams": legacy, "lines": lines, "cuts": cuts, "gap": gap, "hops": rng.choice([0, 0, 2]),
+    exit_after = rng.choice([None, None, None, None, 0, 0, 1, 30])   # the child exits right after its last write (output may still be unread)
+    prelude = None
+    if rng.random() < 0.06:
+        # an earlier session over the SAME client object that ended in the middle of a line
+        prelude = {"tail": rng.choice(['{"jsonrpc":"2.0","method":"notifications/mess', '{"jsonrpc":"2.0","id":1,"result":{"t":"\u00e9', "garbage without newline"])}
+    return {"v": 1, "exit_after": exit_after, "prelude": prelude, "legacy_streams": legacy, "lines": lines, "cuts": cuts, "gap": gap, "hops": rng.choice([0, 0, 2]),
             "protocol_version": rng.choice([None, None, "2025-06-18", "2025-03-26"])}
 
 
@@ -206,6 +211,10 @@ SHRINK_LISTS = ["lines", "cuts"]
 
 
 def simplify(scn):
+    if scn.get("prelude"):
+        c = copy.deepcopy(scn); c["prelude"] = None; yield c
+    if scn.get("exit_after") is not None:
+        c = copy.deepcopy(scn); c["exit_after"] = None; yield c
     if scn.get("legacy_streams"):
         c = copy.deepcopy(scn); c["legacy_streams"] = []; yield c
     if scn["gap"]:
@@ -284,11 +293,19 @@ def execute(scn: dict) -> dict:
 
     async def main(sim):
         def on_start(child):
+            if scn.get("prelude") and not st.get("prelude_done"):
+                # first session: one complete line, then a partial line, then silence until the context is left
+                child.write_stdout([b'{"jsonrpc":"2.0","method":"notifications/message","params":{"data":"prelude"}}\n' + scn["prelude"]["tail"].encode("utf-8")[:60]])
+                return
             t = 0.0
             for i, p in enumerate(pieces):
                 sim.at(sim.now() + t, child.write_stdout, [p], tie=0, hops=scn["hops"])
                 t += ticks(scn["gap"])
             st["t_last"] = sim.now() + t
+            if scn.get("exit_after") is not None:
+                # the child is done and exits; whatever it wrote stays readable in the pipe until EOF
+                sim.at(sim.now() + t + ticks(scn["exit_after"]), child.exit, 0, tie=2, hops=scn["hops"])
+                sim.fault("child_exits_with_unread_output")
 
         factory = ProcessFactory(sim, lambda idx, argv, env: {"on_start": on_start, "read_mode": "eager"})
         st["factory"] = factory
@@ -296,6 +313,11 @@ def execute(scn: dict) -> dict:
             client = stdio.StdioClient(StdioParameters(command="sim-child", args=[]))
             if scn["protocol_version"]:
                 client.set_protocol_version(scn["protocol_version"])
+            if scn.get("prelude"):
+                async with client:
+                    await anyio.sleep(0.05)
+                st["prelude_done"] = True
+                sim.probe("earlier_session_ended_mid_line")
             async with client:
                 read_stream, _write = client.get_streams()
                 # legacy API: a one-shot per-request stream registered for some response ids; it may be abandoned (closed)
@@ -357,6 +379,8 @@ def execute(scn: dict) -> dict:
         out["faults"]["short_read"] = out["faults"].get("short_read", 0) + len(cuts)
     if len(cuts) >= len(data) - 1 and len(data) > 2:
         probe("one_byte_chunks")
+    if scn.get("exit_after") is not None:
+        probe("child_exited_with_unread_output")
     for (_rid, closed_, _rs) in st.get("legacy", []):
         probe("legacy_request_stream_abandoned" if closed_ else "legacy_request_stream_registered")
     if len(scn["lines"]) > 110 and len(cuts) <= 12:
